@@ -734,3 +734,58 @@ package fsm
 //@   loop 0 invariant 0 <= iter.pos && iter.pos <= cnt(iter.vP, iter.lo, iter.hi) && iter.onKey == (iter.pos < cnt(iter.vP, iter.lo, iter.hi)) && (iter.onKey ==> iter.cur == nth(iter.vP, iter.lo, iter.hi, iter.pos))
 //@   loop 0 invariant world.nset - old(world.nset) == iter.pos && sstWriter != nil && memfile != nil && fresh(memfile)
 //@   loop 0 step [C08.save.step] iter.pos == prev(iter.pos) + 1 && world.nset == prev(world.nset) + 1 && world.lastKey == prev(iter.cur) && world.lastVal == iter.vV[prev(iter.cur)]
+
+// ---- installing a snapshot: build a new DB directory, switch `current` durably, swap, clean up
+
+//@ trustframe "io" "fmt"
+//@ func binary.Read<*uint64>
+//@   assumed
+//@   params r, order, data
+//@   results err
+//@   modifies *asType(data, *uint64), r.rest
+//@ iface vfs.FS.Create
+//@   assumed
+//@   params fs, name
+//@   results f, err
+//@   ensures err == nil ==> f != nil
+//@   ensures forall q string :: old(fs.vHas[q]) ==> fs.vHas[q]
+//@   modifies fs.vHas
+//@ iface vfs.File.Sync
+//@   assumed
+//@   modifies nothing
+//@ iface vfs.File.Close
+//@   assumed
+//@   modifies nothing
+//@ iface vfs.File.Write
+//@   assumed
+//@   modifies nothing
+// Ingest links the SST files into the (new, private) DB: its view changes, bookkeeping values keep their 8-byte form
+//@ func pebble.(*DB).Ingest
+//@   assumed
+//@   params d, paths
+//@   requires d != nil
+//@   ensures (d.vP[bytesOf(fsm.sysLocalIndex)] ==> blen(d.vV[bytesOf(fsm.sysLocalIndex)]) == 8) && (d.vP[bytesOf(fsm.sysLeaderIndex)] ==> blen(d.vV[bytesOf(fsm.sysLeaderIndex)]) == 8)
+//@   modifies d.vP, d.vV
+//@ func pebble.(*DB).Close
+//@   assumed
+//@   modifies nothing
+
+// recover (snapshot format). The live state - the DB pointer and the durable `current` - changes only
+// at the very end, after the new DB was opened, filled and its index read: the pointer is swapped
+// only after `current` durably names the new, durable, opened directory; every earlier exit (error,
+// stop request) leaves both untouched. The crash-safety invariant holds at every exit.
+//@ func (*snapshot).recover
+//@   params s, r, stopc
+//@   results er
+//@   requires s != nil && s.fsm != nil && s.fsm.fs != nil && s.fsm.log != nil && s.fsm.metrics != nil && r != nil && parentOf(s.fsm.dirname) != s.fsm.dirname
+//@   requires [inv] recoverable(s.fsm.fs, s.fsm.dirname) && (s.fsm.fs.dCur[s.fsm.dirname] != "" ==> s.fsm.fs.vHas[pjoin(s.fsm.dirname, s.fsm.fs.dCur[s.fsm.dirname])]) && s.fsm.fs.vCur[s.fsm.dirname] == s.fsm.fs.dCur[s.fsm.dirname] && s.fsm.fs.dCur[s.fsm.dirname] != "current.updating"
+//@   before pebble.ReplaceCurrentDBFile assert [C08.install.opened] fs.opened[pjoin(dir, fs.updName[dir])]
+//@   ensures [C08.install.recoverable] recoverable(s.fsm.fs, s.fsm.dirname)
+//@   ensures [C08.install.swap] s.fsm.pebble.v != old(s.fsm.pebble.v) ==> s.fsm.fs.dCur[s.fsm.dirname] == s.fsm.fs.vCur[s.fsm.dirname] && s.fsm.fs.opened[pjoin(s.fsm.dirname, s.fsm.fs.dCur[s.fsm.dirname])]
+//@   modifies s.fsm.fs.vHas, s.fsm.fs.dHas, s.fsm.fs.dCur, s.fsm.fs.vCur, s.fsm.fs.updName, s.fsm.fs.opened, s.fsm.pebble.v, r.rest, family(G_any_vP), family(G_any_vV)
+//@   loop 0 invariant db != nil && fresh(db) && s.fsm == old(s.fsm) && (isNilSlice(files) || fresh(files)) && (isNilSlice(buff) || fresh(buff))
+//@   loop 0 invariant s.fsm.fs.opened[dbdir] && s.fsm.fs.vHas[dbdir] && s.fsm.pebble.v == old(s.fsm.pebble.v)
+//@   loop 0 invariant forall d string :: s.fsm.fs.dCur[d] == old(s.fsm.fs.dCur[d]) && s.fsm.fs.vCur[d] == old(s.fsm.fs.vCur[d])
+//@   loop 0 invariant forall q string :: old(s.fsm.fs.dHas[q]) ==> s.fsm.fs.dHas[q]
+//@   loop 0 invariant forall q string :: old(s.fsm.fs.vHas[q]) ==> s.fsm.fs.vHas[q]
+//@   loop 0 invariant (db.vP[bytesOf(sysLocalIndex)] ==> blen(db.vV[bytesOf(sysLocalIndex)]) == 8) && (db.vP[bytesOf(sysLeaderIndex)] ==> blen(db.vV[bytesOf(sysLeaderIndex)]) == 8)
